@@ -237,6 +237,10 @@ class TDRedfieldRelaxationTensor(RedfieldRelaxationTensor, TimeDependent):
         dim = SS.shape[0]
 
         if not self._data_initialized:
+            # the operators are transformed in place: real storage cannot
+            # hold them in a complex basis
+            if numpy.iscomplexobj(SS):
+                self.Km = numpy.array(self.Km, dtype=numpy.complex128)
             for tt in range(self.Nt):
                 for m in range(self.Km.shape[0]):
                     self.Lm[tt, m, :, :] = \
